@@ -106,9 +106,59 @@ def p2p_classify(data: bytes) -> str:
     return "garbage"
 
 
+def p2p_template(kind: str) -> bytearray:
+    """Datagrams shaped like real traffic as far as the repository shows it: the handler's own PING_PREFIX / ACK_PREFIX constants say
+    that octet 4 is a sequence / id octet followed by 00 00 00 14; commands are 'P2P' 00 <id> 00 00 00 14, 11 octets, the request type
+    at offset 20 and a tail; pings start with 'ZZZZ' (the marker of the IPSC captures in the repository's tests)."""
+    if kind in ("ping", "short_ping"):
+        return bytearray(b"ZZZZ" + PING_MARK + bytes(11 if kind == "ping" else 3))
+    ident = {"reg": 0x00, "dmr": 0x01, "rdac": 0x02, "ack": 0x0C, "unknown": 0x03}[kind]
+    typ = {"reg": 0x10, "dmr": 0x11, "rdac": 0x12, "ack": 0x00, "unknown": 0x13}[kind]
+    return bytearray(b"P2P\x00" + bytes([ident, 0x00, 0x00, 0x00, 0x14]) + bytes(11) + bytes([typ]) + bytes(13 if kind == "rdac" else 12))
+
+
+P2P_DONORS = ["p2p_ack", "p2p_ping", "p2p_reg", "p2p_dmr", "p2p_rdac"]
+RESP_DONORS = ["resp_fd", "resp_10", "resp_00", "resp_fa"]
+REQ_DONORS = ["req_" + n for n in sorted({n for names in EMIT.values() for n in names})]
+ALL_DONORS = P2P_DONORS + RESP_DONORS + REQ_DONORS + ["one_00"]
+SPANS = {"free": (0, 10**6), "4-8": (4, 9), "4-12": (4, 13), "13-19": (13, 20)}
+
+
+def donor_bytes(name: str) -> bytes:
+    """a real datagram of another kind whose octets are copied into the free positions of a probe"""
+    if name.startswith("p2p_"):
+        return bytes(p2p_template(name[4:]))
+    if name.startswith("resp_"):
+        return rdac_response(int(name[5:], 16), 220, "4100")
+    if name.startswith("req_"):
+        from okdmr.dmrlib.protocols.hytera.rdac_datagram_protocol import RDACDatagramProtocol
+
+        return bytes(getattr(RDACDatagramProtocol, name[4:]))  # donor octets only, never an expectation
+    if name == "one_00":
+        return b"\x00"
+    raise ValueError(name)
+
+
 def p2p_bytes(op) -> bytes:
     if op.get("cut") is not None:
         return p2p_bytes({k: v for k, v in op.items() if k != "cut"})[: op["cut"]]
+    if op.get("tpl"):
+        kind = op["kind"]
+        d = p2p_template(kind)
+        if op.get("from"):
+            # the positions the framing of this kind does not use: not the 'P2P' prefix / the type octet at 20 of a command, not the
+            # first four octets / the marker at 4..8 of a ping; the length stays
+            fixed = {0, 1, 2, 3, 4, 5, 6, 7, 8} if kind in ("ping", "short_ping") else {0, 1, 2, 20}
+            donor = donor_bytes(op["from"])
+            lo, hi = SPANS[op.get("span", "free")]
+            for i in range(max(lo, 0), min(hi, len(d), len(donor))):
+                if i not in fixed:
+                    d[i] = donor[i]
+        if op.get("b4") is not None:
+            d[4] = op["b4"] & 0xFF
+        if op.get("b0") is not None:
+            d[0] = op["b0"] & 0xFF
+        return bytes(d)
     kind = op["kind"]
     n = op.get("n", 33)
     if kind in ("reg", "dmr", "rdac", "unknown", "ack"):
@@ -296,7 +346,7 @@ class Runner:
     # -- P2P ---------------------------------------------------------------------------------------
     def apply_p2p(self, op, addr):
         data = p2p_bytes(op)
-        kind = op["kind"] if op.get("cut") is None else p2p_classify(data)
+        kind = op["kind"] if (op.get("cut") is None and not op.get("tpl")) else p2p_classify(data)  # cut / template probes: by framing
         n = len(data)
         rec = self.recs.get(addr)
         registered = bool(rec and rec["registered"])
@@ -374,6 +424,17 @@ class Runner:
             return rdac_response(last, op.get("n", 220), op.get("fill"), op.get("bad"))
         if kind == "pfx":
             return rdac_response(op["x"] & 0xFF, op.get("n", 220), op.get("fill"), op.get("bad"))
+        if kind == "mix":
+            # a step response (x = "expected": the one expected now) whose octets after the compared 4-octet prefix come from another
+            # kind of datagram: shift 0 = the donor's octets at the same offsets, shift 1 = the whole donor right after the prefix
+            last = EXPECT.get(s, 0xFA) if op["x"] == "expected" else op["x"] & 0xFF
+            d = bytearray(rdac_response(last, 220, "4100"))
+            donor = donor_bytes(op["from"])
+            if op.get("shift"):
+                d[4 : 4 + len(donor)] = donor[: len(d) - 4]
+            else:
+                d[4 : len(donor)] = donor[4 : len(d)]
+            return bytes(d[:220])
         if kind == "one":
             return bytes([op.get("v", 0) & 0xFF])
         if kind == "garbage":
@@ -615,6 +676,21 @@ def _p2p_probes(full: bool):
     return out
 
 
+def _p2p_sweep_probes():
+    """the id octet 4 of template registration / DMR start-up / RDAC start-up / ping datagrams over all 256 values (ping: also octet 0)"""
+    out = [{"k": "p2p", "peer": 0, "kind": kind, "tpl": 1, "b4": b} for kind in ("reg", "dmr", "rdac", "ping") for b in range(256)]
+    out += [{"k": "p2p", "peer": 0, "kind": "ping", "tpl": 1, "b0": b} for b in range(0, 256, 5)]
+    return out
+
+
+def _p2p_cross_probes():
+    """kind B built from its template with the octets of a real kind-A datagram copied into B's free positions (all of them, or only
+    offsets 4..8 / 4..12 / 13..19)"""
+    return [{"k": "p2p", "peer": 0, "kind": b, "tpl": 1, "from": a, "span": span}
+            for b in ("reg", "dmr", "rdac", "ping", "ack", "unknown") for a in ALL_DONORS for span in SPANS if a != "p2p_" + b]
+
+
+P2P_TPL_STATES = [[], [{"k": "p2p", "peer": 0, "kind": "reg", "tpl": 1}]]  # peer 0 unregistered / registered
 P2P_PROBE_STATES = [[], [{"k": "cfg", "peer": 0, "out": 1}], [P2P_SYMBOLS[0]], [{"k": "cfg", "peer": 0, "out": 1}, P2P_SYMBOLS[0]]]
 
 
@@ -630,14 +706,25 @@ def drv_p2p(ctx: Ctx, sub: SubCheck):
                 for second in range(len(P2P_SYMBOLS)):
                     _probe(ctx, sub, t, state + [P2P_SYMBOLS[first], P2P_SYMBOLS[second]], _p2p_probes(full=False), "after_2_symbols_")
 
+        # id-octet sweeps and cross-contaminated templates as the last datagram after [state prefix, this symbol]
+        for state in P2P_TPL_STATES:
+            _probe(ctx, sub, t, state + [P2P_SYMBOLS[first]], _p2p_sweep_probes(), "sweep_after_symbol_")
+            _probe(ctx, sub, t, state + [P2P_SYMBOLS[first]], _p2p_cross_probes(), "cross_after_symbol_")
+
     ctx.shards(work, list(range(len(P2P_SYMBOLS))))
     for state in P2P_PROBE_STATES:  # peer 0 unknown / known but unregistered / registered / registered with an outbound address
         _probe(ctx, sub, ctx.tally, state, _p2p_probes(full=True), "single_")
+    for state in P2P_TPL_STATES + [[{"k": "cfg", "peer": 0, "out": 1}]]:
+        _probe(ctx, sub, ctx.tally, state, _p2p_sweep_probes(), "sweep_single_")
+        _probe(ctx, sub, ctx.tally, state, _p2p_cross_probes(), "cross_single_")
     ctx.tally.exhaustive[sub.name] = True
     ctx.tally.extra.setdefault("exhaustive_history_length", {})["p2p"] = depth
     ctx.tally.notes.append(f"{sub.name}: all sequences of length <= {depth} over {len(P2P_SYMBOLS)} symbols (the property text's length 7 is ~1e10 sequences and is not attempted); "
                            "every proper prefix of the registration / DMR / RDAC start-up / ping / ack datagrams (and each with 1-3 octets added) is delivered as a "
-                           "probe from peer 0 in 4 states (unknown, known unregistered, registered, registered with outbound address), alone and after every symbol")
+                           "probe from peer 0 in 4 states (unknown, known unregistered, registered, registered with outbound address), alone and after every symbol; "
+                           "template datagrams (octets 4..8 = id 00 00 00 14 as in the handler's own markers) with the id octet swept over all 256 values and with "
+                           "their free positions (all / offsets 4..8 / 4..12 / 13..19) copied from real datagrams of every other kind (P2P ack, ping, registration, "
+                           "start-ups, RDAC responses and requests), from an unregistered and a registered peer, alone and after every symbol; judged by framing")
 
 
 RDAC_FULL_LEN = 220
@@ -650,6 +737,13 @@ def _rdac_probes(full: bool):
     out = [{"k": "rdac", "peer": 0, "kind": "pfx", "x": x, "n": n, "fill": "4100"} for x in (0xFD, 0x10, 0x00, 0xFA) for n in lengths]
     out += [{"k": "rdac", "peer": 0, "kind": "garbage", "hex": "7e0401fd00"[: 2 * n]} for n in range(5)]
     return out
+
+
+def _rdac_cross_probes():
+    """each step response (the expected one and FD / 10 / 00 / FA) whose octets after the compared prefix are copied from every other
+    response, from the handler's requests and from P2P datagrams"""
+    return [{"k": "rdac", "peer": 0, "kind": "mix", "x": x, "from": a, "shift": sh}
+            for x in ("expected", 0xFD, 0x10, 0x00, 0xFA) for a in ALL_DONORS for sh in (0, 1)]
 
 
 def _rdac_prefix(si):
@@ -676,6 +770,7 @@ def drv_rdac(ctx: Ctx, sub: SubCheck):
 
     def single(si, t: Tally):  # every prefix probe as the only datagram after peer 0 was driven to each step (si = 0: fresh handler)
         _probe(ctx, sub, t, _rdac_prefix(si), _rdac_probes(full=True), f"from_step_{STEPS[si]}_single_")
+        _probe(ctx, sub, t, _rdac_prefix(si), _rdac_cross_probes(), f"from_step_{STEPS[si]}_cross_")
 
     ctx.shards(single, list(range(len(STEPS))))
     ctx.tally.exhaustive[sub.name] = True
@@ -684,7 +779,8 @@ def drv_rdac(ctx: Ctx, sub: SubCheck):
         f"{sub.name}: all sequences over {len(RDAC_SYMBOLS)} symbols of length <= {depth_fresh} from a fresh handler and <= {depth_from_step} after peer 0 was "
         f"driven to each of the 14 reachable steps (a second peer parked at step 2); from a fresh handler and from each of the 14 steps every proper "
         f"prefix (0..219 octets) and every 1-3 octet extension of the four step responses FD/10/00/FA and the prefixes of a garbage datagram are "
-        f"delivered as single probes, and a reduced (quick) / the full (thorough) probe set after every single symbol"
+        f"delivered as single probes, and a reduced (quick) / the full (thorough) probe set after every single symbol; from each step also every "
+        f"response prefix followed by the octets of every other response / of each request the handler sends / of P2P datagrams (aligned and shifted)"
     )
 
 
